@@ -80,7 +80,10 @@ func FromPlain(content []byte) string {
 			break
 		}
 		if utf8.RuneStart(b) {
-			content = content[:i]
+			// Drop the last rune only if it is cut off.
+			if !utf8.FullRune(content[i:]) {
+				content = content[:i]
+			}
 			break
 		}
 	}
